@@ -20,6 +20,7 @@ import (
 	"path/filepath"
 	"runtime"
 	"runtime/pprof"
+	"sort"
 	"strconv"
 	"strings"
 	"sync"
@@ -88,6 +89,38 @@ func maxPayload(repo string) int {
 	tt := gast.Parse(filepath.Join(repo, "pkg/net/multiplex/ttrpc.go"))
 	mx := gast.Parse(filepath.Join(repo, "pkg/net/multiplex/mux.go"))
 	return int(gast.MustInt(mx.Consts(tt.Consts(nil)), "maxPayloadSize"))
+}
+
+// corpus reads corpus/<pid>/*.json (each file: a JSON array of scenarios) — minimised past
+// disagreements and boundary cases, executed before the generated scenarios.
+func corpus(c *hx.Ctx, pid string) []scenario {
+	dir := filepath.Join(filepath.Dir(filepath.Dir(os.Args[0])), "corpus", pid)
+	if _, err := os.Stat(dir); err != nil {
+		dir = filepath.Join("/verif/corpus", pid)
+	}
+	files, _ := filepath.Glob(filepath.Join(dir, "*.json"))
+	sort.Strings(files)
+	var out []scenario
+	for _, f := range files {
+		raw, err := os.ReadFile(f)
+		var l []scenario
+		if err == nil {
+			err = json.Unmarshal(raw, &l)
+		}
+		if err != nil {
+			c.HarnessError("corpus %s: %v", f, err)
+			continue
+		}
+		for i, sc := range l {
+			if (pid == "C10") != (sc.X != nil) || (pid == "C11") != (sc.S != nil) {
+				c.HarnessError("corpus %s: entry %d is not a %s scenario", f, i, pid)
+				continue
+			}
+			out = append(out, sc)
+		}
+		c.Count("corpus."+filepath.Base(f), len(l))
+	}
+	return out
 }
 
 // ---------------------------------------------------------------- child side
